@@ -232,6 +232,28 @@ pub fn gen(tier: &str, rng: &mut Rng, out: &mut Vec<String>) {
             }
             t.push(b'$');
             t
+        } else if i % 25 == 3 {
+            // long structured single texts: several levels of SA-IS recursion
+            let len = 100 + rng.below(500);
+            let mut t = match rng.below(5) {
+                0 => fib_word(b'a', b'b', len),
+                1 => fib_word(b'b', b'a', len),
+                2 => thue_morse(b'a', b'b', len),
+                // period doubling word
+                3 => (1..=len).map(|j| if (j as u64).trailing_zeros() % 2 == 0 { b'a' } else { b'b' }).collect(),
+                _ => {
+                    let wl = 2 + rng.below(6);
+                    let w = rng.seq(b"abc", wl);
+                    (0..len).map(|j| w[j % w.len()]).collect()
+                }
+            };
+            let nm = rng.below(3);
+            for _ in 0..nm {
+                let j = rng.below(t.len());
+                t[j] = *rng.pick(b"abc$");
+            }
+            t.push(b'$');
+            t
         } else {
             let ml = if thorough && rng.chance(1, 10) { 120 } else { 30 };
             any_text(rng, false, false, ml)
